@@ -206,12 +206,15 @@ impl<'a> Gen<'a> {
                     } else {
                         self.r.pick(&KEYS).to_string()
                     };
-                    let rhs = if self.r.chance(1, 2) {
-                        json!({"r":"val","v":vstr(&k)})
-                    } else {
-                        json!({"r":"val","v":vlist(vec![vstr(&k), vstr("zz")])})
+                    // right-hand sides: a string, a list of strings, a regex (with == and with in),
+                    // a list of regexes
+                    let re = |s: &str| json!({"t":"re","s":true,"e":false,"v":crate::val::cps(s)});
+                    let (rhs, op) = match self.r.below(6) {
+                        0 | 1 => (json!({"r":"val","v":vstr(&k)}), "eq"),
+                        2 | 3 => (json!({"r":"val","v":vlist(vec![vstr(&k), vstr("zz")])}), "in"),
+                        4 => (json!({"r":"val","v":re(&k)}), if self.r.chance(1, 2) { "eq" } else { "in" }),
+                        _ => (json!({"r":"val","v":vlist(vec![re(&k), re("zz")])}), "in"),
                     };
-                    let op = if rhs["v"]["t"] == "list" { "in" } else { "eq" };
                     parts.push(json!({"p":"keys","op":op,"on":self.r.chance(1,4),"rhs":rhs}));
                     let next = c["v"].as_array().unwrap().first().cloned();
                     self.walk(next.as_ref(), budget - 1, parts, lvl);
